@@ -12,7 +12,7 @@ import sys
 
 V = os.path.abspath(os.path.join(os.path.dirname(os.path.abspath(__file__)), ".."))
 REPO = "/repo"
-PROPS = [f"C{i:02d}" for i in range(1, 21)]
+PROPS = os.environ.get("BENIGN_PROPS", "").split(",") if os.environ.get("BENIGN_PROPS") else [f"C{i:02d}" for i in range(1, 21)]
 
 
 def sh(cmd, **kw):
@@ -33,6 +33,8 @@ def main():
             if not os.path.exists(os.path.join(d, "patch.diff")):
                 continue
             sid = f"{area}-{mk}"
+            if os.environ.get("BENIGN_IDS") and sid not in os.environ["BENIGN_IDS"].split(","):
+                continue
             meta = json.load(open(os.path.join(d, "meta.json"))) if os.path.exists(os.path.join(d, "meta.json")) else {}
             a = sh(f"git -C {REPO} apply {d}/patch.diff")
             if a.returncode:
@@ -57,6 +59,10 @@ def main():
                 sh(f"git -C {REPO} checkout -- . && git -C {REPO} clean -fdq")
             out = os.path.join(V, "benign", sid)
             os.makedirs(out, exist_ok=True)
+            if os.environ.get("BENIGN_PROPS") and os.path.exists(os.path.join(out, "meta.json")):
+                old = json.load(open(os.path.join(out, "meta.json")))["checks"]
+                old.update(res)
+                res = old
             shutil.copy(os.path.join(d, "patch.diff"), out)
             if os.path.exists(os.path.join(d, "demo.py")):
                 shutil.copy(os.path.join(d, "demo.py"), out)
